@@ -450,3 +450,86 @@ def evap_stage_agreement(chk, prog, rule: str):
     else:
         chk.violation(rule, where, construct, f"the two extraction loops differ: only stage 1 has {only1}; only stage 2 has {only2} - e.g. without the clamp of negative "
                       "available water the compartment below the evaporation layer gains water every sub-step", loc=se.loc(loops[1]))
+
+
+
+# --------------------------------------------------------------------------------------------- CO2 forcing
+
+def co2_series_rules(chk, prog, rule_interp: str = None, rule_lookup: str = None):
+    """(rule_interp) the yearly CO2 series is interpolated from the *whole* table the user supplied: the table handed to np.interp in
+    compute_variables is not row-selected by anything derived from the clock (start / end date) - the concentration of year y is a function
+    of y and the table, so extending the end date cannot change a completed season's forcing.
+    (rule_lookup) the season reset reads the concentration of the season's year from that series by *label* (`.loc[<year of the clock's step
+    start>]`), not by position (`.iloc[season_counter]`): positions and seasons differ whenever the simulation does not start in the first
+    planting year; `.iloc[0]` is allowed only for a constant concentration."""
+    cv = prog.find_func("compute_variables")
+    rs = prog.find_func("reset_initial_conditions")
+    if rule_interp:
+        chk.fn(cv.key)
+        where = f"{cv.module}:{cv.qualname}"
+        # names derived from the clock
+        clock = {p for p in cv.params if "clock" in p.lower()}
+        tainted = set()
+        changed = True
+        while changed:
+            changed = False
+            for a in walk_no_nested(cv.node):
+                if isinstance(a, ast.Assign):
+                    dep = any((isinstance(x, ast.Name) and (x.id in clock or x.id in tainted)) for x in ast.walk(a.value))
+                    if dep:
+                        for t in a.targets:
+                            for e in (t.elts if isinstance(t, ast.Tuple) else [t]):
+                                if isinstance(e, ast.Name) and e.id not in tainted:
+                                    tainted.add(e.id); changed = True
+        calls = [c for c in walk_no_nested(cv.node) if isinstance(c, ast.Call) and norm(c.func) in ("np.interp", "numpy.interp") and len(c.args) >= 3]
+        n = 0
+        for c in calls:
+            bases = {x.id for a in c.args[1:3] for x in ast.walk(a) if isinstance(x, ast.Name)}
+            if not bases:
+                continue
+            n += 1
+            construct = norm(c)[:90]
+            bad = sorted(b for b in bases if b in tainted)
+            # also a direct selection inside the argument
+            direct = any(isinstance(x, ast.Name) and (x.id in tainted or x.id in clock) for a in c.args[1:3] for x in ast.walk(a) if isinstance(x, ast.Name) and x.id not in bases)
+            if bad or direct:
+                chk.violation(rule_interp, where, construct, f"the CO2 table that is interpolated ({', '.join(bad) or 'argument'}) depends on the simulation window: the "
+                              "concentration of an already completed year changes when the end date is extended", loc=cv.loc(c))
+            else:
+                chk.ok(rule_interp, where, construct, "interpolated from the whole table; only the target years come from the clock")
+        chk.floor(rule_interp, n, 1, "interpolations of the CO2 table")
+    if rule_lookup:
+        chk.fn(rs.key)
+        where = f"{rs.module}:{rs.qualname}"
+        from ..rdef import flow_of as _flow_of
+        flow = _flow_of(rs)
+        cfg = flow.cfg
+        n = 0
+        for x in walk_no_nested(rs.node):
+            if not (isinstance(x, ast.Subscript) and isinstance(x.value, ast.Attribute) and x.value.attr in ("loc", "iloc") and isinstance(x.value.value, ast.Attribute)
+                    and x.value.value.attr == "co2_data_processed"):
+                continue
+            n += 1
+            construct = norm(x)
+            nid = flow.node_of(x)
+            deps = {(norm(cfg.nodes[t].ast), l) for t, l in cfg.transitive_control_deps(nid) if cfg.nodes[t].kind == "test"} if nid is not None else set()
+            const_branch = any("constant_conc" in t and l is True for t, l in deps)
+            if x.value.attr == "iloc":
+                if const_branch and norm(x.slice) == "0":
+                    chk.ok(rule_lookup, where, construct, "first value of the series, only for a constant concentration")
+                else:
+                    chk.violation(rule_lookup, where, construct, "the season's CO2 concentration is read from the yearly series by position: the series starts with the "
+                                  "year of the simulation start, seasons with the first planting date on or after it", loc=rs.loc(x))
+                continue
+            # .loc[<name>]: the name is the year of the clock's step start
+            good = False
+            if isinstance(x.slice, ast.Name) and nid is not None:
+                for d in flow.defs_reaching(x.slice.id, nid):
+                    a = cfg.nodes[d].ast if d != ENTRY else None
+                    if isinstance(a, ast.Assign) and "year" in norm(a.value) and any(isinstance(y, ast.Attribute) and y.attr in ("step_start_time", "planting_dates") for y in ast.walk(a.value)):
+                        good = True
+            if good:
+                chk.ok(rule_lookup, where, construct, "by label: the year of the clock's step start")
+            else:
+                chk.violation(rule_lookup, where, construct, "the label used to read the season's CO2 concentration is not the year of the clock's step start", loc=rs.loc(x))
+        chk.floor(rule_lookup, n, 2, "reads of the yearly CO2 series in the season reset")
